@@ -72,7 +72,7 @@ def small_programs(tier):
 
 def generate(tier, seed):
     rng = C.rng_for(seed, "C01")
-    n = 6000 if tier == "quick" else 120000
+    n = 15000 if tier == "quick" else 400000
     lines, used = [], {}
     for i in range(n):
         depth = rng.choice([1, 2, 2, 3, 3, 4] if tier == "quick" else [1, 2, 3, 3, 4, 4, 5])
